@@ -2,3 +2,60 @@
 #[allow(unused_imports)]
 use super::*;
 include!("/verif/replay/in_crate/common.rs");
+use crate::core::util::test::test_manager::test::TestManager;
+use crate::core::util::crypto::generate_keys;
+use crate::core::defs::{SaitoPrivateKey, SaitoPublicKey, SaitoUTXOSetKey};
+use crate::core::consensus::slip::Slip;
+
+fn mk_tx(pk: SaitoPublicKey, sk: &SaitoPrivateKey, inputs: &[(u64, u64)], salt: u8) -> Transaction {
+    let mut tx = Transaction::default();
+    for (ord, amount) in inputs.iter() {
+        let mut s = Slip::default(); s.public_key = pk; s.amount = *amount; s.block_id = 1; s.tx_ordinal = *ord; s.slip_index = 0;
+        tx.from.push(s);
+    }
+    let mut o = Slip::default(); o.public_key = pk; o.amount = 1;
+    tx.to.push(o);
+    tx.data = vec![salt];
+    tx.sign(sk);
+    tx.generate(&pk, 0, 0);
+    tx
+}
+
+/// C14: the pool never holds two transactions spending the same output, and an output that no pooled transaction spends
+/// can always be spent by a new transaction (no stale reservation), over random add/delete sequences
+#[tokio::test]
+#[serial_test::serial]
+async fn reservation_index_contract() {
+    let t = TestManager::default();
+    let (pk, sk) = generate_keys();
+    let mut rng = Rng::from_env();
+    for run in 0..150 {
+        let mut mempool = Mempool::new(t.wallet_lock.clone());
+        let mut trace: Vec<String> = vec![];
+        let mut pooled: Vec<Transaction> = vec![];
+        for step in 0..12 {
+            let n_in = 1 + rng.below(2) as usize;
+            let inputs: Vec<(u64, u64)> = (0..n_in).map(|_| (rng.below(5), 10)).collect();
+            if rng.below(3) < 2 {
+                let tx = mk_tx(pk, &sk, &inputs, step as u8);
+                let keys: Vec<SaitoUTXOSetKey> = tx.from.iter().map(|s| s.utxoset_key).collect();
+                let conflict = pooled.iter().any(|p| p.from.iter().any(|s| keys.contains(&s.utxoset_key)));
+                let sig = tx.signature;
+                mempool.add_transaction(tx.clone()).await;
+                let admitted = mempool.transactions.contains_key(&sig);
+                trace.push(format!("add(inputs={:?})→{}", inputs.iter().map(|x| x.0).collect::<Vec<_>>(), admitted));
+                if admitted { pooled.push(tx); }
+                if conflict && admitted { witness(format!("run {}: transaction spending an output already spent by a pooled transaction was admitted: {:?}", run, trace)); }
+                if !conflict && !admitted { witness(format!("run {}: transaction whose inputs no pooled transaction spends was refused (stale reservation locks the funds): {:?}", run, trace)); }
+            } else if !pooled.is_empty() {
+                let k = rng.below(pooled.len() as u64) as usize;
+                let gone = pooled.remove(k);
+                mempool.delete_transactions(&vec![gone.clone()]);
+                trace.push(format!("delete(inputs={:?})", gone.from.iter().map(|s| s.tx_ordinal).collect::<Vec<_>>()));
+            }
+            for a in 0..pooled.len() { for b in (a + 1)..pooled.len() {
+                if pooled[a].from.iter().any(|s| pooled[b].from.iter().any(|x| x.utxoset_key == s.utxoset_key)) { witness(format!("run {}: two pooled transactions share an input: {:?}", run, trace)); }
+            } }
+        }
+    }
+}
